@@ -81,8 +81,15 @@ def raise_ids(c, modname):
     return out
 
 
+DUPLICATES = []
+
+
 def contract(qual, **kw):
+    replace = kw.pop('replace', False)
     c = Contract(qual, **kw)
+    if qual in CONTRACTS and not replace:
+        # two sidecar files stating a contract for the same function: the later one would silently win
+        DUPLICATES.append(qual)
     CONTRACTS[qual] = c
     return c
 
@@ -681,6 +688,12 @@ class SpecEval(object):
     def fn_cls_of(self, n):
         v = self.ev(n.args[0])
         return CLS(va(val_of(v)))
+
+    def fn_class_is(self, n):
+        """class_is(x, 'module:Class'): the VALUE x is that class object"""
+        v = self.ev(n.args[0])
+        q = self.ev(n.args[1])
+        return val_of(v) == VCls(z3.IntVal(front.cls_id(front.resolve_exc_name(self.modname, q))))
 
     def fn_cls_id(self, n):
         c = self.ev(n.args[0])
